@@ -138,6 +138,16 @@ fn part_norm(max: u32) -> PartResult {
 // character - an argument spelled like it is still a mask
 const IDENTS: [&str; 6] = ["a", "aa", "ab", "b", "A", "a?"];
 
+/// Register with a real name that ends in a character outside the mask alphabets, so that
+/// a mask anchored at the end of the text can only match the nickname (WHO compares the
+/// nickname, the source and the real name).
+fn reg_dot(w: &mut World, slot: usize, nick: &str, user: &str) -> Result<(), crate::world::MachineryError> {
+    w.connect(slot)?;
+    w.send(slot, &format!("NICK {}", nick))?;
+    w.send(slot, &format!("USER {} 8 * :Real {}.", user, user))?;
+    Ok(())
+}
+
 fn ident_source(n: &str) -> String {
     format!("{}!~u{}@127.0.0.1", n, n)
 }
@@ -185,10 +195,10 @@ pub fn case_wire(caller: &str, mask: &str, ident: &str) -> Vec<Finding> {
     }
     for (k, id) in IDENTS.iter().enumerate() {
         if renamed && *id == ident {
-            m!(w.register(1 + k, &format!("old{}", id), &format!("u{}", id)));
+            m!(reg_dot(&mut w, 1 + k, &format!("old{}", id), &format!("u{}", id)));
             m!(w.send(1 + k, &format!("NICK {}", id)));
         } else {
-            m!(w.register(1 + k, id, &format!("u{}", id)));
+            m!(reg_dot(&mut w, 1 + k, id, &format!("u{}", id)));
         }
     }
     let slot = 1 + IDENTS.iter().position(|x| *x == ident).unwrap();
@@ -330,7 +340,7 @@ pub fn case_wire(caller: &str, mask: &str, ident: &str) -> Vec<Finding> {
                 }
             }
             let mut want = BTreeSet::new();
-            let mut all: Vec<(String, String, String)> = IDENTS.iter().map(|i| (i.to_string(), ident_source(i), format!("Real u{}", i))).collect();
+            let mut all: Vec<(String, String, String)> = IDENTS.iter().map(|i| (i.to_string(), ident_source(i), format!("Real u{}.", i))).collect();
             all.push(("founder".into(), "founder!~fu@127.0.0.1".into(), "Real fu".into()));
             for (n, s, r) in &all {
                 let hit = if caller == "who" { glob(mask, n) || glob(mask, s) || glob(mask, r) } else { glob(mask, n) };
